@@ -39,7 +39,13 @@ if ONLY:
     lines = open('seeded/RESULTS.md').read().splitlines()
     for r in rows:
         new = '| ' + ' | '.join(str(x).replace('|', '/') for x in r) + ' |'
-        lines = [new if l.startswith('| ' + r[0] + ' |') else l for l in lines]
+        if any(l.startswith('| ' + r[0] + ' |') for l in lines):
+            lines = [new if l.startswith('| ' + r[0] + ' |') else l for l in lines]
+        else:
+            # a new seed: after the last seed row (the reverted fixes follow)
+            at = max([i for i, l in enumerate(lines) if l.startswith('| ') and not l.startswith('| revert') and not l.startswith('| change')
+                      and not l.startswith('|---')] or [len(lines) - 1])
+            lines.insert(at + 1, new)
     open('seeded/RESULTS.md', 'w').write('\n'.join(lines) + '\n')
     print('\n'.join(l for l in lines if any(l.startswith('| ' + r[0] + ' |') for r in rows)))
     sys.exit(0)
